@@ -431,6 +431,9 @@ func c16(c *wk.Ctx) {
 		r.Count("runs", 1)
 		r.Violationf(fmt.Sprintf("C16|outcome=process-aborted|key_exists=%s|preexisting=%v", cs.KeyExists, cs.PreExist), json.RawMessage(d.Desc), "rump ended the process (exit %d): %s", d.Result.Exit, firstPanicLine(d.Result.Stderr))
 	}
+	if wk.ReplayOne(c, "c16runs", nil, onDeath) {
+		return
+	}
 	n := c.N(96, 1600)
 	parts := 12
 	wk.Parallel(parts, 12, func(p int) {
